@@ -27,6 +27,9 @@ type Op struct {
 	CloseErr bool     `json:"closeErr,omitempty"`
 	SinkRet  bool     `json:"sinkRet,omitempty"` // sink returns the event instead of nil
 	V        int      `json:"v,omitempty"`
+	Reuse    bool     `json:"reuse,omitempty"`   // regnode: register the SAME node object that is currently registered under the id
+	Shape    int      `json:"shape,omitempty"`   // regnode: 0 plain *N, 1 Unwrapper-only wrapper, 2 wrapper that is Closer and Unwrapper, 3 uncomparable value node
+	CtxDone  bool     `json:"ctxDone,omitempty"` // rpan / rmnode: call with an already cancelled context
 }
 
 func (o Op) String() string {
@@ -40,14 +43,26 @@ func (o Op) String() string {
 		if o.SinkRet {
 			x += ",retEv"
 		}
+		if o.Reuse {
+			x += ",sameObject"
+		}
+		if o.Shape != 0 {
+			x += [...]string{"", ",unwrapper", ",closer+unwrapper", ",uncomparable-value"}[o.Shape]
+		}
 		return fmt.Sprintf("RegNode(%q,%s%s%s)", o.N, TypeName(o.NT), pol, x)
 	case "regpipe":
 		return fmt.Sprintf("RegPipe(%s/%q,[%s]%s)", o.ET, o.P, strings.Join(o.IDs, " "), pol)
 	case "rmpipe":
 		return fmt.Sprintf("RemovePipeline(%s/%q)", o.ET, o.P)
 	case "rpan":
+		if o.CtxDone {
+			return fmt.Sprintf("RPAN(%s/%q,ctx done)", o.ET, o.P)
+		}
 		return fmt.Sprintf("RPAN(%s/%q)", o.ET, o.P)
 	case "rmnode":
+		if o.CtxDone {
+			return fmt.Sprintf("RemoveNode(%q,ctx done)", o.N)
+		}
 		return fmt.Sprintf("RemoveNode(%q)", o.N)
 	case "thr":
 		return fmt.Sprintf("SetThr(%s,%d)", o.ET, o.V)
@@ -104,6 +119,8 @@ type Exec struct {
 	B     *eventlogger.Broker
 	W     *nodes.World
 	Last  map[string]*nodes.N // last successfully registered instance per id
+	LastObj map[string]eventlogger.Node // the object handed to RegisterNode for that instance
+	Wrappers map[*nodes.N]*nodes.WrapCloser
 	All   []*nodes.N          // every instance ever created
 	Pipes map[PKey]*Pipe
 	Hist  []Op
@@ -116,7 +133,7 @@ type Exec struct {
 
 func NewExec() *Exec {
 	b, _ := eventlogger.NewBroker()
-	return &Exec{B: b, W: &nodes.World{}, Last: map[string]*nodes.N{}, Pipes: map[PKey]*Pipe{}}
+	return &Exec{B: b, W: &nodes.World{}, Last: map[string]*nodes.N{}, LastObj: map[string]eventlogger.Node{}, Wrappers: map[*nodes.N]*nodes.WrapCloser{}, Pipes: map[PKey]*Pipe{}}
 }
 
 func polOpt(node bool, pol int) []eventlogger.Option {
@@ -149,10 +166,18 @@ func nids(ids []string) []eventlogger.NodeID {
 func (x *Exec) Apply(op Op) Result {
 	x.Hist = append(x.Hist, op)
 	ctx := context.Background()
+	_ = ctx
 	var r Result
 	switch op.K {
 	case "regnode":
 		x.ninst++
+		if op.Reuse && x.Last[op.N] != nil && x.Closes(x.Last[op.N]) == 0 {
+			// the very same object again (only the policy may differ)
+			n := x.Last[op.N]
+			x.All = append(x.All, n)
+			r.Err = x.B.RegisterNode(eventlogger.NodeID(op.N), x.LastObj[op.N], polOpt(true, op.Pol)...)
+			break
+		}
 		n := &nodes.N{W: x.W, Name: fmt.Sprintf("%s#%d", op.N, x.ninst), ID: op.N, T: eventlogger.NodeType(op.NT), SinkReturnsEvent: op.SinkRet}
 		if op.CloseErr {
 			n.CloseErr = fmt.Errorf("close of %s failed", n.Name)
@@ -161,9 +186,21 @@ func (x *Exec) Apply(op Op) Result {
 			x.NewNode(op, n)
 		}
 		x.All = append(x.All, n)
-		r.Err = x.B.RegisterNode(eventlogger.NodeID(op.N), n, polOpt(true, op.Pol)...)
+		var obj eventlogger.Node = n
+		switch op.Shape {
+		case 1:
+			obj = &nodes.WrapPlain{Inner: n}
+		case 2:
+			w := &nodes.WrapCloser{Inner: n}
+			x.Wrappers[n] = w
+			obj = w
+		case 3:
+			obj = nodes.Uncomparable{Inner: n, Pad: []int{1}}
+		}
+		r.Err = x.B.RegisterNode(eventlogger.NodeID(op.N), obj, polOpt(true, op.Pol)...)
 		if r.Err == nil {
 			x.Last[op.N] = n
+			x.LastObj[op.N] = obj
 		}
 	case "regpipe":
 		r.Err = x.B.RegisterPipeline(eventlogger.Pipeline{PipelineID: eventlogger.PipelineID(op.P), EventType: eventlogger.EventType(op.ET), NodeIDs: nids(op.IDs)}, polOpt(false, op.Pol)...)
@@ -181,12 +218,12 @@ func (x *Exec) Apply(op Op) Result {
 			delete(x.Pipes, PKey{eventlogger.EventType(op.ET), eventlogger.PipelineID(op.P)})
 		}
 	case "rpan":
-		r.OK, r.Err = x.B.RemovePipelineAndNodes(ctx, eventlogger.EventType(op.ET), eventlogger.PipelineID(op.P))
+		r.OK, r.Err = x.B.RemovePipelineAndNodes(ctxFor(op), eventlogger.EventType(op.ET), eventlogger.PipelineID(op.P))
 		if r.OK {
 			delete(x.Pipes, PKey{eventlogger.EventType(op.ET), eventlogger.PipelineID(op.P)})
 		}
 	case "rmnode":
-		r.Err = x.B.RemoveNode(ctx, eventlogger.NodeID(op.N))
+		r.Err = x.B.RemoveNode(ctxFor(op), eventlogger.NodeID(op.N))
 	case "thr":
 		r.Err = x.B.SetSuccessThreshold(eventlogger.EventType(op.ET), op.V)
 	case "thrsinks":
@@ -195,6 +232,24 @@ func (x *Exec) Apply(op Op) Result {
 		r.Err = x.B.Reopen(ctx)
 	}
 	return r
+}
+
+func ctxFor(op Op) context.Context {
+	if op.CtxDone {
+		c, cancel := context.WithCancel(context.Background())
+		cancel()
+		return c
+	}
+	return context.Background()
+}
+
+// Closes is the number of times the broker closed this instance: for a Closer+Unwrapper wrapper the
+// wrapper's own Close counts and the wrapped node must never be closed directly.
+func (x *Exec) Closes(n *nodes.N) int {
+	if w, ok := x.Wrappers[n]; ok {
+		return int(w.OwnCloses.Load()) + 1000*int(n.Closes.Load())
+	}
+	return int(n.Closes.Load())
 }
 
 // Replay builds a fresh Exec by applying a history.
@@ -232,7 +287,7 @@ type Traversal struct {
 	End   string // "complete" | "warn"
 	EndID string // node id reported in Complete()
 	Sink  bool   // the completing node is of type sink
-	Err   *nodes.NodeErr
+	Err   error
 }
 
 type ExpCall struct {
@@ -268,7 +323,7 @@ func (x *Exec) Expect(et string, lin *nodes.Lin) []Traversal {
 			tr.EndID = p.IDs[i]
 			tr.Sink = n.T == eventlogger.NodeTypeSink
 			if end == "warn" {
-				tr.Err = n.ErrFor(lin.SendID)
+				tr.Err = n.ErrForKind(lin.SendID, lin.ErrKind[n])
 			}
 			break
 		}
